@@ -99,7 +99,13 @@ func genC18(t *simrt.Tape, tier string) Scenario {
 	// while the first interceptor runs - the deadline of the caller passing mid-chain; only an interceptor's error aborts the chain)
 	verbs := []string{"Get", "Head", "Options", "Delete", "Post", "Put", "Patch", "API", "APIDelete", "APIPost", "CtxCancelled", "CtxCancelledMidChain"}
 	for i := 0; i < n; i++ {
-		switch t.ChooseW([]int{4, 2, 1, 2, 6, 1}) {
+		switch t.ChooseW([]int{4, 2, 1, 2, 6, 1, 1}) {
+		case 6:
+			// a request during which one interceptor unregisters another one that comes later in the chain
+			// (a one-shot "login" interceptor retired by the "auth" interceptor, say)
+			if sc.NIcs >= 2 {
+				sc.Steps = append(sc.Steps, c18Step{Kind: "RequestRemoving", Ics: []int{t.Choose(sc.NIcs), t.Choose(sc.NIcs)}, Verb: "Get"})
+			}
 		case 5:
 			// the user swaps the transport of a client and hands the client over again
 			sc.Steps = append(sc.Steps, c18Step{Kind: "SwapTransport", Cli: t.Choose(sc.NCli)})
@@ -119,7 +125,7 @@ func genC18(t *simrt.Tape, tier string) Scenario {
 	if sc.Twin {
 		for i := range sc.Steps {
 			switch sc.Steps[i].Kind {
-			case "Add", "Remove", "Clear", "Request":
+			case "Add", "Remove", "Clear", "Request", "RequestRemoving":
 				sc.Steps[i].Inst = t.Choose(2)
 			}
 		}
@@ -183,6 +189,8 @@ func (sc *c18Scenario) Run(s *simrt.Sim) {
 	redirects := 0
 	calls := 0
 	panicAtCall := -1
+	duringRemove := map[int]int{} // interceptor object -> the object it unregisters when it is invoked next (one-shot)
+	var removeVia func(target int)
 	var tagged []string // "<raw query>:<entry>" for requests that carry a query (concurrent phase)
 	var cancelMid func()
 	errs := make([]error, sc.NIcs)
@@ -212,6 +220,10 @@ func (sc *c18Scenario) Run(s *simrt.Sim) {
 			}
 			if my == panicAtCall {
 				panic("interceptor-boom")
+			}
+			if tgt, ok := duringRemove[i]; ok {
+				delete(duringRemove, i)
+				removeVia(tgt)
 			}
 			if my == failAt {
 				return errs[i]
@@ -352,6 +364,7 @@ func (sc *c18Scenario) Run(s *simrt.Sim) {
 		})
 		return op, rerr
 	}
+	removeVia = func(target int) { sh.RemoveInterceptor(ics[target]) }
 	for si, st := range sc.Steps {
 		if st.Inst < len(shs) {
 			// switch to the instance this step is about
@@ -412,6 +425,58 @@ func (sc *c18Scenario) Run(s *simrt.Sim) {
 				return nil, nil
 			})
 			sc.probes["transport-swapped"]++
+		case "RequestRemoving":
+			a, b := st.Ics[0], st.Ics[1]
+			pa, pb, na, nb := -1, -1, 0, 0
+			for k, i := range model {
+				if i == a {
+					pa = k
+					na++
+				}
+				if i == b {
+					pb = k
+					nb++
+				}
+			}
+			if a == b || na != 1 || nb != 1 || pa > pb {
+				continue // not applicable to the current registration list
+			}
+			log, seen, calls, failAt = nil, nil, 0, -1
+			duringRemove[a] = b
+			op, rerr := doReq("Get")
+			delete(duringRemove, a)
+			if op.Panic != "" {
+				return
+			}
+			// everything up to and including a ran once, in order; after it the remaining interceptors once each in
+			// order, the one being unregistered at most once; then the transport once; nobody twice
+			var want, wantWithout []string
+			for k, i := range model {
+				want = append(want, fmt.Sprintf("ic%d", i))
+				if k != pb {
+					wantWithout = append(wantWithout, fmt.Sprintf("ic%d", i))
+				}
+			}
+			var got []string
+			nTr := 0
+			for _, e := range log {
+				if strings.HasPrefix(e, "transport") {
+					nTr++
+				} else {
+					got = append(got, e)
+				}
+			}
+			sc.probes["interceptor-unregistered-by-an-earlier-one-during-a-request"]++
+			if (fmt.Sprint(got) != fmt.Sprint(want) && fmt.Sprint(got) != fmt.Sprint(wantWithout)) || nTr != 1 || rerr != nil {
+				add("chain", "chain-when-a-later-interceptor-is-unregistered-during-the-request", fmt.Sprintf("step %d: interceptor %d unregisters interceptor %d (later in the chain) while the request runs: call log %v (Err=%v), want %v or %v, then the transport once", si, a, b, log, rerr, want, wantWithout))
+			}
+			var nm []int
+			for _, i := range model {
+				if i != b {
+					nm = append(nm, i)
+				}
+			}
+			model = nm
 		case "Request":
 			if len(model) >= 2 {
 				sc.probes["request-with-2+-interceptors"]++
